@@ -1277,3 +1277,50 @@ VARIANTS['C19'] += [
       [(DT, "kwargs['microsecond'] = int(frac[:6].ljust(6, '0'), 10)", "digits = (frac + '000000')[:6]\n                    kwargs['microsecond'] = int(digits, 10)")],
       None),
 ]
+
+VARIANTS['C09'] += [
+    V('PatchLocation completed with the manifest parameter set',
+      [(MCTX, "            if self.cgi_params.patch:\n                patch_loc += objects.dict_to_cgi_params(self.cgi_params.patch)\n",
+        "            if self.cgi_params.manifest:\n                patch_loc += objects.dict_to_cgi_params(self.cgi_params.manifest)\n")],
+      'R09.6', 'ManifestContext'),
+    V('Location completed with the patch parameter set',
+      [(MCTX, "            locationURL = locationURL + objects.dict_to_cgi_params(self.cgi_params.manifest)\n",
+        "            locationURL = locationURL + objects.dict_to_cgi_params(self.cgi_params.patch)\n")],
+      'R09.6', 'ManifestContext'),
+    V('neutral: patch parameter set named before it is used',
+      [(MCTX, "            if self.cgi_params.patch:\n                patch_loc += objects.dict_to_cgi_params(self.cgi_params.patch)\n",
+        "            patch_params = self.cgi_params.patch\n            if patch_params:\n                patch_loc += objects.dict_to_cgi_params(patch_params)\n")], None),
+]
+
+VARIANTS['C05'] += [
+    V('representation read once before a media file is indexed on demand',
+      [(MCTX, "                for mf in adp.media_files(encrypted=self.options.encrypted):\n                    if mf.representation is None:\n                        mf.parse_media_file()\n                    if mf.representation is None:\n                        continue\n                    adp_set.representations.append(mf.representation)\n",
+        "                for mf in adp.media_files(encrypted=self.options.encrypted):\n                    rep = mf.representation\n                    if rep is None:\n                        mf.parse_media_file()\n                    if rep is None:\n                        continue\n                    adp_set.representations.append(rep)\n")],
+      'R05.10', 'create_period'),
+    V('neutral: representation read again after a media file is indexed on demand',
+      [(MCTX, "                for mf in adp.media_files(encrypted=self.options.encrypted):\n                    if mf.representation is None:\n                        mf.parse_media_file()\n                    if mf.representation is None:\n                        continue\n                    adp_set.representations.append(mf.representation)\n",
+        "                for mf in adp.media_files(encrypted=self.options.encrypted):\n                    rep = mf.representation\n                    if rep is None:\n                        mf.parse_media_file()\n                        rep = mf.representation\n                    if rep is None:\n                        continue\n                    adp_set.representations.append(rep)\n")],
+      None),
+]
+
+STRMF = 'dashlive/server/requesthandler/streams.py'
+VARIANTS['C17'] += [
+    V('stream to replace looked up under the raw directory field',
+      [(STRMF, "        st = models.Stream.get(directory=data['directory'])\n", "        st = models.Stream.get(directory=params.get('directory'))\n")],
+      'R17.10', 'add_stream'),
+    V('neutral: directory of the new stream named before the lookup',
+      [(STRMF, "        st = models.Stream.get(directory=data['directory'])\n", "        directory = data['directory']\n        st = models.Stream.get(directory=directory)\n")],
+      None),
+]
+
+VMS = 'dashlive/mpeg/dash/validator/media_segment.py'
+VARIANTS['C18'] += [
+    V('decode time checked against the tolerance on one side only',
+      [(VMS, "            self.elt.check_almost_equal(\n                self.expected_decode_time,\n                self.decode_time,\n                delta=self.tolerance,\n                msg=msg)\n",
+        "            self.elt.check_less_than_or_equal(tc_diff, self.tolerance, msg=msg)\n")],
+      'R18.12', 'validate_segment'),
+    V('neutral: decode time checked through the absolute difference',
+      [(VMS, "            self.elt.check_almost_equal(\n                self.expected_decode_time,\n                self.decode_time,\n                delta=self.tolerance,\n                msg=msg)\n",
+        "            self.elt.check_less_than_or_equal(abs(tc_diff), self.tolerance, msg=msg)\n")],
+      None),
+]
